@@ -59,6 +59,8 @@ def histories(tier, rng):
             cs, ci = gens.state_ids(state)
             d = gens.random_story_message(rng, cs, 20 + j, fresh) if rng.random() < 0.6 else gens.random_item_message(rng, cs, ci, 20 + j, fresh)
             t = to_text(d)
+            if rng.random() < 0.15:
+                t = gens.mutate_doc(rng, t, state, n=rng.randrange(1, 3))       # a structural neighbour of the message
             msgs.append(t)
             r = impl.run_add(state, t)
             if 'tree' in r and not r.get('err'):
